@@ -1,4 +1,4 @@
 From Coq Require Extraction ExtrOcamlBasic.
-From GV Require Import Common.Outcome C12.HeaderModel.
+From GV Require Import Common.Outcome C12.HeaderModel C12.Conv.
 Extraction Language OCaml.
-Extraction "model.ml" parse_header_gen fuel_for.
+Extraction "model.ml" parse_header_gen fuel_for header_conversions.
